@@ -35,6 +35,8 @@ impl Emb {
                 "year" => k * year,
                 "wm1" => if k == 0 { 0 } else { k * wn + (wn - 1) },
                 "halfw" => if wn >= 2 { k * (wn / 2) } else { k },
+                // odd ticks in the middle of a bucket, even ticks on the next bucket's boundary
+                "stagger" => k * wn + if k % 2 == 1 { wn / 2 } else { 0 },
                 "rand" => {
                     if k > 0 {
                         // mixture: 1ns steps, sub-bucket steps, bucket multiples, year multiples
